@@ -132,3 +132,17 @@ type Mapping = mapping
 
 // Ext returns the external address of the mapping.
 func (m *mapping) Ext() string { return m.ext }
+
+
+// Holder returns the liveness (1 live, -1 boundary, 0 none/dead) of the
+// mapping that currently holds the external address, unless it is `except`.
+func (m *Model) Holder(ext string, now time.Duration, except *mapping) int {
+	mp := m.byExt[ext]
+	if mp == nil || mp == except {
+		return 0
+	}
+	return m.live(mp, now)
+}
+
+// Internal returns the internal endpoint that created the mapping.
+func (m *mapping) Internal() string { return m.internal }
